@@ -84,7 +84,7 @@ LawUnion ==
     LET K == Children(W, tgt)
     IN \A i \in DOMAIN W :
          /\ ~InScope(tgt, W[i]) => TRComp(W[i], tgt, t, rot) = Unmoved(W[i], rot) /\ \A k \in K : ~InScope(k, W[i])
-         /\ InScope(tgt, W[i]) /\ W[i].path # tgt /\ Level(W[i].path) # "occupancy_query" =>   \* (a query result is derived, no part)          \* stored below the target: moved by exactly one part
+         /\ InScope(tgt, W[i]) /\ W[i].path # tgt /\ Level(W[i].path) \notin NonTargets =>   \* (a query result is derived, no part)          \* stored below the target: moved by exactly one part
               /\ Cardinality({k \in K : InScope(k, W[i])}) = 1
               /\ \A k \in K : InScope(k, W[i]) => TRComp(W[i], tgt, t, rot) = TRComp(W[i], k, t, rot)
          /\ W[i].path = tgt => TRComp(W[i], tgt, t, rot) = Moved(W[i], t, rot)     \* stored by the target itself
